@@ -25,11 +25,11 @@ PROP = {'assumptions': ['sweep theorems are about runs the model completes (expl
 
 TEXT = {'design_ref': 'DESIGN.md section 4, C20',
  'note': 'Sweep theorems are partial-correctness statements over fuel-bounded runs, plus termination of both sweeps with request-only scripts under explicit '
-         'height/list bounds (finite support of reachable states is a hypothesis, not proved); theorems named _partial state what is missing.  Finding '
-         'C20-lost-invalidate (invalidate of a node whose GetPulseTimeAux is in progress was lost) is repaired in /repo; the model mirrors the repaired code '
-         '(second pass, aggregate 0 for a node that is invalid even then), theorems lost_invalidate_reasked/_bounded/_live state it, regression input '
-         'corpus/C20/pn-regress-inprogress-invalidate.ops.  Trusted: Lean kernel, the statement file, the correspondence harness (sampling), MUSCLE_TIME_NEVER '
-         'regenerated from the headers.',
+         'height/list bounds (finite support and finite height of reachable states are proved; Inv/V across earlier recalculation sweeps stay hypotheses); '
+         'theorems named _partial state what is missing.  Finding C20-lost-invalidate (invalidate of a node whose GetPulseTimeAux is in progress was lost) is '
+         'repaired in /repo; the model mirrors the repaired code (second pass, aggregate 0 for a node that is invalid even then), theorems '
+         'lost_invalidate_reasked/_bounded/_live state it, regression input corpus/C20/pn-regress-inprogress-invalidate.ops.  Trusted: Lean kernel, the '
+         'statement file, the correspondence harness (sampling), MUSCLE_TIME_NEVER regenerated from the headers.',
  'technique': 'Lean 4 theorems over a hand-written executable model of the PulseNode scheduler (three child lists per node, aggregate times, both sweeps, '
               'scripted re-entrant callbacks) + differential correspondence of model and real code on random histories under a simulated clock + brute-force '
               'direct oracle',
@@ -39,7 +39,7 @@ TEXT = {'design_ref': 'DESIGN.md section 4, C20',
          'minimum (attained, or "never") for every sweep whose GetPulseTime callbacks only answer and change requests (`wakeup_is_min_quiet`; '
          '`wakeup_is_min_first_sweep` for the first sweep after any history without further hypotheses); the parent relation has finite height in every '
          'reachable state (`finite_height_reachable`, the guard `isAnc_sound`); both sweeps terminate with fuel B*(N+2) for height bound B and list bound N '
-         '(`pulse_sweep_terminates_quiet`, `gpt_sweep_terminates_quiet`), and the bounds exist under finite support (`sweeps_terminate_finite_support`).  The '
-         'model is tied to the C++ code by running both on the same random histories (attach/detach/destroy/invalidate, scripts with re-entrant actions, '
-         'gpt/pulse sweeps): returned minimum and the full callback log must be identical; a brute-force oracle on the real class checks min-of-requests, '
-         'fired = due, once, never early, asked again.'}
+         '(`pulse_sweep_terminates_quiet`, `gpt_sweep_terminates_quiet`), and the bounds exist in every reachable state (`finite_support_reachable`, '
+         '`sweeps_terminate_reachable`, `sweeps_terminate_first_sweep`).  The model is tied to the C++ code by running both on the same random histories '
+         '(attach/detach/destroy/invalidate, scripts with re-entrant actions, gpt/pulse sweeps): returned minimum and the full callback log must be identical; '
+         'a brute-force oracle on the real class checks min-of-requests, fired = due, once, never early, asked again.'}
